@@ -886,7 +886,12 @@ pub fn gen_int(r: &mut Rng) -> Val {
 }
 
 pub fn gen_node(r: &mut Rng) -> String {
-    (*r.pick(&["peer@host", "sut@host", "other@elsewhere", "n@h"])).to_string()
+    match r.below(14) {
+        // a host part long enough to make the node name an atom of more than 255 bytes
+        0 => format!("n@{}", "h".repeat(r.range(254, 600) as usize)),
+        1 => format!("n@{}", "ü".repeat(r.range(127, 300) as usize)),
+        _ => (*r.pick(&["peer@host", "sut@host", "other@elsewhere", "n@h"])).to_string(),
+    }
 }
 
 pub fn gen_pid(r: &mut Rng, node: Option<&str>) -> Val {
